@@ -792,5 +792,5 @@ var _ = math.MaxInt64
 
 func init() {
 	zv.Register(&zv.Prop{ID: "C01", Topic: "c01", Gen: gen, Exec: exec, Timeout: FrameworkTimeout,
-		Rule: "three input streams per parser family — structure-aware DER trees (real fixtures and hand-built certificates/CRLs/CSRs/keys parsed into TLV trees, 1..3 node mutations: length +-, tag flip, truncation, indefinite/non-minimal/huge lengths, graft, deep nesting), byte mutations of the real fixtures found in the tree, random bytes — through every public parse entry point of the anchors in both parsing modes; same three streams for SST / CRLSet / OneCRL JSON / TLS handshake messages (seeded by the real marshal methods); exhaustive small spaces for the DER header readers; a case is one distinct input line; T3 = recover + watchdog (20 s per call, 240 s hard) + allocation meter (64*|input|+32MiB)"})
+		Rule: "three input streams per parser family — structure-aware DER trees (real fixtures and hand-built certificates/CRLs/CSRs/keys parsed into TLV trees, 1..3 node mutations: length +-, tag flip, truncation, indefinite/non-minimal/huge lengths, graft, deep nesting), byte mutations of the real fixtures found in the tree, random bytes — through every public parse entry point of the anchors in both parsing modes; same three streams for SST / CRLSet / OneCRL JSON / TLS handshake messages (seeded by the real marshal methods); exhaustive small spaces for the DER header readers; structure-aware SubjectPublicKeyInfo edits for every key type (spki.go: EC point format / length / curve, RSA integers, Ed25519/X25519 lengths, DSA integers, algorithm parameters) in self-issued certificates signed by the family's own key (the parser's self-signature check runs with the edited key), in issued ones and as bare PKIX keys, both modes and the ct/x509 fork; a case is one distinct input line; T3 = recover + watchdog (20 s per call, 240 s hard) + allocation meter (64*|input|+32MiB)"})
 }
